@@ -15,6 +15,8 @@ _SOH_LOOP = ("    while augmenting_path_for(residual_graph):\n        path = aug
              "        residual_graph, residual_function = residual_network(graph,\n"
              "                                                             flow_function)\n")
 
+_SBS = "        for peerid in peers:\n            ret.setdefault(peerid, set()).add(shareid)\n"
+
 MUTANTS = [
     # ---- C08.1 freshness of the residual network
     M("soh-recompute-dropped", HZ,
@@ -105,6 +107,42 @@ MUTANTS = [
     M("bfs-predecessor-table-short", HU, "    predecessor  = [None for i in range(len(graph))]\n", "    predecessor  = [None] * (len(graph) - 1)\n", "C08.4"),
     M("bfs-benign-no-distance", HU, "                distance[v] = distance[n] + 1\n", "", None,
       note="sweep survivor: distance is never read"),
+
+    # ---- C08.5 faithful inversion of the share map (shares_by_server)
+    M("inversion-one-set-per-share-aliased", HZ, _SBS,
+      "        just_this_share = set([shareid])\n        for peerid in peers:\n            if peerid in ret:\n"
+      "                ret[peerid].add(shareid)\n            else:\n                ret[peerid] = just_this_share\n", "C08.5",
+      note="seeded C08-E: every server first seen on a share gets the same set object"),
+    M("inversion-default-set-hoisted", HZ, "    ret = {}\n    for shareid, peers in servermap.items():\n        assert isinstance(peers, set)\n" + _SBS,
+      "    ret = {}\n    no_shares = set()\n    for shareid, peers in servermap.items():\n        assert isinstance(peers, set)\n"
+      "        for peerid in peers:\n            ret.setdefault(peerid, no_shares).add(shareid)\n", "C08.5",
+      note="one default set for all servers: every server holds every share"),
+    M("inversion-fromkeys-mutable", HZ, "    ret = {}\n    for shareid, peers in servermap.items():\n        assert isinstance(peers, set)\n" + _SBS,
+      "    ret = dict.fromkeys(set().union(*servermap.values()), set())\n    for shareid, peers in servermap.items():\n"
+      "        assert isinstance(peers, set)\n        for peerid in peers:\n            ret[peerid].add(shareid)\n", "C08.5"),
+    M("inversion-later-shares-dropped", HZ, _SBS,
+      "        for peerid in peers:\n            ret.setdefault(peerid, set([shareid]))\n", "C08.5",
+      note="only the first share of each server is kept: happiness too low"),
+    M("inversion-set-overwritten", HZ, _SBS,
+      "        for peerid in peers:\n            ret[peerid] = set([shareid])\n", "C08.5"),
+    M("inversion-not-inverted", HZ, _SBS,
+      "        for peerid in peers:\n            ret.setdefault(shareid, set()).add(peerid)\n", "C08.5"),
+    M("inversion-returns-inside-loop", HZ, _SBS + "    return ret\n",
+      _SBS + "        return ret\n", "C08.5"),
+    M("inversion-benign-local-for-the-set", HZ, _SBS,
+      "        for peerid in peers:\n            held = ret.setdefault(peerid, set())\n            held.add(shareid)\n", None),
+    M("inversion-benign-branch-with-new-set", HZ, _SBS,
+      "        for peerid in peers:\n            if peerid in ret:\n                ret[peerid].add(shareid)\n"
+      "            else:\n                ret[peerid] = set([shareid])\n", None,
+      note="the seeded refactoring done right: a new set per server"),
+    M("inversion-benign-set-made-per-server", HZ, _SBS,
+      "        for peerid in peers:\n            mine = set()\n            ret.setdefault(peerid, mine).add(shareid)\n", None),
+    M("inversion-benign-over-keys", HZ, "    for shareid, peers in servermap.items():\n        assert isinstance(peers, set)\n" + _SBS,
+      "    for shareid in servermap:\n        assert isinstance(servermap[shareid], set)\n"
+      "        for peerid in sorted(servermap[shareid]):\n            ret.setdefault(peerid, set()).add(shareid)\n", None),
+    M("vanish-shares-by-server-loops", HZ, "    for shareid, peers in servermap.items():\n        assert isinstance(peers, set)\n" + _SBS,
+      "    for peerid in set().union(*servermap.values()):\n        ret[peerid] = set(s for s in servermap if peerid in servermap[s])\n",
+      "ANALYSIS-ERROR", note="another way to invert the map: not decided, reported as analysis error rather than passed"),
 
     # ---- vanished anchors
     M("vanish-bfs", HU, "def bfs(graph, s):", "def bfsX(graph, s):", "ANALYSIS-ERROR",
